@@ -98,6 +98,9 @@ theorem ctxUpd_full {c : CtxId} {f : Ctx → Ctx} {w : World} (h : Inv w) (hc : 
 theorem setVar_full {c : CtxId} {k : String} {x : Nat} {w : World} (h : Inv w) (hc : ∀ t ∈ w.pending, some t.ctx ≠ some c) :
     Full (some c) none w (setVar c k x w) := ctxUpd_full h hc
 
+theorem setTag_full {c : CtxId} {x : Nat} {w : World} (h : Inv w) (hc : ∀ t ∈ w.pending, some t.ctx ≠ some c) :
+    Full (some c) none w (setTag c x w) := ctxUpd_full h hc
+
 theorem setEntry_full {l : LoaderId} {n : String} {b : Bool} {w : World} (h : Inv w) :
     Full none (some l) w (setEntry l n b w) := by
   refine ⟨setEntry_step h, ?_, h, none_ne_pend⟩
@@ -189,11 +192,19 @@ theorem leafStep_full {g c : Nat} {l : Leaf} {w : World} (h : Pre g c w) :
   | obs =>
     simp only [leafStep, h.cur]
     exact ⟨((emit_full h.inv (EvOK.obs h.est)).weakenC hx).weakenL, rfl⟩
-  | set k x => exact ⟨(setVar_full h.inv hx).weakenL, by simp [leafStep, setVar, ctxUpd]⟩
+  | set k x => exact ⟨(setVar_full h.inv hx).weakenL, by simp [leafStep, setVar, setTag, ctxUpd]⟩
   | get k => exact ⟨((emit_full h.inv EvOK.get).weakenC hx).weakenL, rfl⟩
+  | del k =>
+    simp only [leafStep]
+    exact ⟨(ctxUpd_full h.inv hx).weakenL, by simp [ctxUpd]⟩
   | push l =>
     simp only [leafStep]
     exact ⟨(ctxUpd_full h.inv hx).weakenL, by simp [ctxUpd]⟩
+  | pop =>
+    simp only [leafStep]
+    split
+    · exact ⟨Full.refl h.inv hx, rfl⟩
+    · exact ⟨(ctxUpd_full (c := c) (f := fun y => { y with stack := y.stack.dropLast }) h.inv hx).weakenL, by simp [ctxUpd]⟩
   | deftype n =>
     simp only [leafStep]
     split
@@ -299,23 +310,23 @@ theorem doParent_full {g : Nat} {id : Nat} {ctch : Bool} {body : CtxId → World
     Full (some root) none w2 (doParent .now g id ctch body root w2).2 := by
   have sF : Full none none w2 (forkCtx root w2).2 := forkCtx_full hp.inv
   have hbody : ∀ w4, Pre g w2.nextCtx w4 → w4.ctxs = (forkCtx root w2).2.ctxs →
-      Full (some w2.nextCtx) (some w2.nextLoader) w4 (body w2.nextCtx (setVar w2.nextCtx tagKey id w4)).2 ∧
-      (body w2.nextCtx (setVar w2.nextCtx tagKey id w4)).2.tls = w4.tls := by
+      Full (some w2.nextCtx) (some w2.nextLoader) w4 (body w2.nextCtx (setTag w2.nextCtx id w4)).2 ∧
+      (body w2.nextCtx (setTag w2.nextCtx id w4)).2.tls = w4.tls := by
     intro w4 hp4 hc4
-    have s4 : Full (some w2.nextCtx) none w4 (setVar w2.nextCtx tagKey id w4) := setVar_full hp4.inv (lex_ne_pend hp4)
+    have s4 : Full (some w2.nextCtx) none w4 (setTag w2.nextCtx id w4) := setTag_full hp4.inv (lex_ne_pend hp4)
     obtain ⟨sb, tb⟩ := hb w2.nextCtx _ (hp4.step s4.s rfl)
-    have hh : headOf (setVar w2.nextCtx tagKey id w4) w2.nextCtx = some w2.nextLoader := by
+    have hh : headOf (setTag w2.nextCtx id w4) w2.nextCtx = some w2.nextLoader := by
       have := headOf_forkCtx root w2
       simp only [headOf] at this ⊢
       rw [← hc4] at this
-      simpa [setVar, ctxUpd] using this
+      simpa [setVar, setTag, ctxUpd] using this
     rw [hh] at sb
     exact ⟨s4.weakenL.trans sb (fun _ _ h => h) (fun _ _ h _ => h), by rw [tb]; rfl⟩
   obtain ⟨hd, _⟩ := doWithContext_full (g := g) (cx := w2.nextCtx) (y := some w2.nextLoader) (w := (forkCtx root w2).2)
-    (body := fun w4 => body w2.nextCtx (setVar w2.nextCtx tagKey id w4))
+    (body := fun w4 => body w2.nextCtx (setTag w2.nextCtx id w4))
     sF.s.inv hp.glt hp.gnp (by simp) (ctx_fresh_not_pend hp.inv) (fun g' => ctx_fresh_not_estab hp.inv g') hbody
   have base : Full (some root) none w2 (doWithContext .now g w2.nextCtx
-      (fun w4 => body w2.nextCtx (setVar w2.nextCtx tagKey id w4)) (forkCtx root w2).2).2 := by
+      (fun w4 => body w2.nextCtx (setTag w2.nextCtx id w4)) (forkCtx root w2).2).2 := by
     refine (sF.trans hd ?_ ?_).weakenC (lex_ne_pend hp)
     · intro i hi _ hc
       simp at hc; omega
@@ -377,19 +388,19 @@ theorem runTask_full {ex : Prog → Gid → CtxId → World → Outcome × World
   have s1 : Full none none w0 (tlFresh t.gid t.ctx w0) := tlFresh_full hinv0 hgl hgn
   have s2 : Full none none (tlFresh t.gid t.ctx w0) (note t.gid t.ctx (tlFresh t.gid t.ctx w0)) := note_full s1.s.inv hcl hcn hne
   have s3 : Full (some t.ctx) none (note t.gid t.ctx (tlFresh t.gid t.ctx w0))
-      (setVar t.ctx tagKey (1000 + t.gid) (note t.gid t.ctx (tlFresh t.gid t.ctx w0))) := setVar_full s2.s.inv (not_pend_ne hcn)
-  have hpre : Pre t.gid t.ctx (setVar t.ctx tagKey (1000 + t.gid) (note t.gid t.ctx (tlFresh t.gid t.ctx w0))) :=
+      (setTag t.ctx (1000 + t.gid) (note t.gid t.ctx (tlFresh t.gid t.ctx w0))) := setTag_full s2.s.inv (not_pend_ne hcn)
+  have hpre : Pre t.gid t.ctx (setTag t.ctx (1000 + t.gid) (note t.gid t.ctx (tlFresh t.gid t.ctx w0))) :=
     { inv := s3.s.inv
-      cur := by simp [tlGet, setVar, ctxUpd, note, tlFresh, aget]
+      cur := by simp [tlGet, setVar, setTag, ctxUpd, note, tlFresh, aget]
       glt := hgl
       gnp := hgn
-      est := by simp [setVar, ctxUpd, note] }
+      est := by simp [setVar, setTag, ctxUpd, note] }
   obtain ⟨sb, _, _⟩ := ih t.prog t.gid t.ctx _ hpre
-  have hh : headOf (setVar t.ctx tagKey (1000 + t.gid) (note t.gid t.ctx (tlFresh t.gid t.ctx w0))) t.ctx = headOf w t.ctx := by
-    simp [headOf, setVar, ctxUpd, note, tlFresh, e5]
+  have hh : headOf (setTag t.ctx (1000 + t.gid) (note t.gid t.ctx (tlFresh t.gid t.ctx w0))) t.ctx = headOf w t.ctx := by
+    simp [headOf, setVar, setTag, ctxUpd, note, tlFresh, e5]
   rw [hh] at sb
   rw [runTask_now]
-  generalize ex t.prog t.gid t.ctx (setVar t.ctx tagKey (1000 + t.gid) (note t.gid t.ctx (tlFresh t.gid t.ctx w0))) = r at sb
+  generalize ex t.prog t.gid t.ctx (setTag t.ctx (1000 + t.gid) (note t.gid t.ctx (tlFresh t.gid t.ctx w0))) = r at sb
   have s03 : Full (some t.ctx) (headOf w t.ctx) w0 r.2 :=
     (((((s1.trans s2 (fun _ _ h => h) (fun _ _ h _ => h)).weakenC (not_pend_ne hcn)).weakenL).trans s3.weakenL
       (fun _ _ h => h) (fun _ _ h _ => h))).trans sb (fun _ _ h => h) (fun _ _ h _ => h)
@@ -475,19 +486,19 @@ theorem exec_full : ∀ f, ExecFull (exec .now f) := by
       · exact k1
     | doctx id p =>
       have sF : Full none none w (forkCtx c w).2 := forkCtx_full h.inv
-      have sV : Full (some w.nextCtx) none (forkCtx c w).2 (setVar w.nextCtx tagKey id (forkCtx c w).2) :=
-        setVar_full sF.s.inv (fresh_ne_pend h.inv (Nat.le_refl _))
-      have hbody : ∀ w1, Pre g w.nextCtx w1 → w1.ctxs = (setVar w.nextCtx tagKey id (forkCtx c w).2).ctxs →
+      have sV : Full (some w.nextCtx) none (forkCtx c w).2 (setTag w.nextCtx id (forkCtx c w).2) :=
+        setTag_full sF.s.inv (fresh_ne_pend h.inv (Nat.le_refl _))
+      have hbody : ∀ w1, Pre g w.nextCtx w1 → w1.ctxs = (setTag w.nextCtx id (forkCtx c w).2).ctxs →
           Full (some w.nextCtx) (some w.nextLoader) w1 (exec .now f p g w.nextCtx w1).2 ∧
           (exec .now f p g w.nextCtx w1).2.tls = w1.tls := by
         intro w1 hp hc1
         obtain ⟨sb, tb, _⟩ := ih p g w.nextCtx w1 hp
         have hh : headOf w1 w.nextCtx = some w.nextLoader := by
-          simp [headOf, hc1, setVar, ctxUpd, forkCtx, newCtx, newLoader]
+          simp [headOf, hc1, setVar, setTag, ctxUpd, forkCtx, newCtx, newLoader]
         rw [hh] at sb
         exact ⟨sb, tb⟩
       obtain ⟨hd, _⟩ := doWithContext_full (g := g) (cx := w.nextCtx) (y := some w.nextLoader)
-        (w := setVar w.nextCtx tagKey id (forkCtx c w).2) (body := fun w2 => exec .now f p g w.nextCtx w2)
+        (w := setTag w.nextCtx id (forkCtx c w).2) (body := fun w2 => exec .now f p g w.nextCtx w2)
         sV.s.inv h.glt h.gnp (Nat.lt_succ_self _) (ctx_fresh_not_pend h.inv) (fun g' => ctx_fresh_not_estab h.inv g') hbody
       have sVd := sV.weakenL.trans hd (fun _ _ h => h) (fun _ _ h _ => h)
       have hne : some c ≠ some w.nextCtx := by
